@@ -201,6 +201,12 @@ func (P *Program) execHarness(name string, p *pathRun) (status, msg string) {
 			if status == "violated" {
 				status = "ok"
 			}
+			if status == "deadlock" && p != nil {
+				if p.solver.Check() == Sat {
+					v := p.buildViolation("deadlock", "deadlock", msg)
+					p.ex.addViolation(v)
+				}
+			}
 		case unsupported:
 			status, msg = "unsupported", r.msg
 		case *runtime.TypeAssertionError:
